@@ -1225,6 +1225,8 @@ fn main() {
             let cap = caps[(i % caps.len() as u64) as usize];
             model_case(r, seed, cap, i / caps.len() as u64, n_ops);
         });
+        // leave room for samples of the other sections
+        r.samples.truncate(3);
     }
 
     // stall (hand-polled)
